@@ -3,6 +3,7 @@ package main
 import (
 	"encoding/json"
 	"fmt"
+	"math"
 	"sort"
 	"strings"
 
@@ -43,7 +44,7 @@ type batchModel struct {
 	In    map[string]batchIO
 	Out   map[string]int // output name -> batch axis
 	solo  map[int]map[string]*ref.T
-	Big   float64 // > 0: sample 2 of the pool is this many times larger than the others
+	Big   float64 // > 0: sample 2 of the pool is this many times larger than sample 0 (both signs), sample 1 large and all positive, sample 3 large and all negative
 }
 
 // stack concatenates per-sample tensors (extent 1 on axis) along axis.
@@ -71,8 +72,15 @@ func (bm *batchModel) sample(name string, k int) *ref.T {
 		salt += int(c)
 	}
 	t := recFill(ref.F32, io.Shape, salt)
-	if bm.Big > 0 && k == 2 {
+	switch {
+	case bm.Big > 0 && k == 2:
 		t = ref.Fill(ref.F32, io.Shape, func(i int) float64 { return t.F(i) * bm.Big })
+	case bm.Big > 0 && k == 3:
+		// a second large sample, all negative (sample 2 has both signs): a kernel that switches formula for the
+		// whole tensor as soon as one element is extreme shows when the two meet in one batch
+		t = ref.Fill(ref.F32, io.Shape, func(i int) float64 { return -math.Abs(t.F(i))*bm.Big - bm.Big })
+	case bm.Big > 0 && k == 1:
+		t = ref.Fill(ref.F32, io.Shape, func(i int) float64 { return math.Abs(t.F(i))*bm.Big + bm.Big })
 	}
 	return t
 }
